@@ -252,6 +252,10 @@ h("ki5d_dist_long_code_friends", SYM, SP, ["C04", "C03", "C02"], kernel="KI5d", 
 h("ki5d_fixed_tables_are_rfc", SYM, SP, ["C03", "C01", "C05"], kernel="KD2/KI5d", expect_s=5, timeout=300,
   functions=["inffixed_tbl::LENFIX", "inffixed_tbl::DISTFIX"], bounds="all 512 + 32 table indices (exhaustive, decided symbolically)")
 
+for _r in (0, 3, 7, 8, 16):
+    h("kd10_prime_room%d" % _r, D + "/kd1_bitwriter.rs", "deflate::verif_kani::kd1_bitwriter", ["C06", "C16"], kernel="KD10", expect_s=60, timeout=900,
+      functions=["deflate::prime", "BitWriter::flush_bits", "Pending::extend"],
+      bounds="32-byte pending buffer with %d byte(s) of room, any valid bit register, bits 0..=32, any value" % _r)
 # ---------------------------------------------------------------- deflate: KD4/KD5 dynamic trees at reduced alphabets
 TR = D + "/kd4_trees.rs"
 TRP = "deflate::verif_kani::kd4_trees"
@@ -445,6 +449,14 @@ for _nm in ("s1", "s2"):
       assumptions=["inflate_table stubbed by assume(false)", "inflate_fast_back -> contract stub: asserts window.have() in {0, window size} (history before the window buffer only), "
                    "then reports the too-far distance as the real loop does when that holds (the real loop did not finish in 1800 s even on concrete input)"])
 
+for _w in (100, 88, 87):
+    h("kb1_fast_back_beyond_window_w%d" % _w, "zlib-rs/src/inflate/infback/verif_kani.rs", "inflate::infback::verif_kani", ["C19", "C02"],
+      kernel="KB1", expect_s=120, timeout=1800, weight=2, mem_gb=16,
+      functions=["inflate::infback::inflate_fast_back (called directly)"],
+      bounds="512-byte window that has been flushed once, %d bytes of the current pass written; concrete input: length 3 at distance 600, end of block "
+             "(600 <= 512 + written for 100 and 88: the case the loop used to accept; 87: one short of it)" % _w,
+      assumptions=["fully concrete input: the verdict of the fast loop is the subject; every CBMC safety check along the path applies"])
+
 # ---------------------------------------------------------------- checksums (C09)
 CB = "zlib-rs/src/crc32/braid/verif_kani.rs"
 CBP = "crc32::braid::verif_kani"
@@ -634,7 +646,7 @@ QUICK = {
     "C05": ["kd4_gen_codes_n5", "kd4_build_tree_bl_k2", "kd4_build_tree_bl_k3", "kd4_build_tree_bl_single", "kd5_send_tree_n4", "kd5_send_tree_z11_n13", "kd1_bitwriter_pack", "kd1_emitters_one_step", "kd1_bitwriter_full_register", "kd10_prime",
             "kd2_static_encode_matches_rfc", "kd2_static_ltree_is_rfc_fixed_code", "kd7_zlib_wrapper", "kd8_quick_finish_n1",
             "kd10_set_dictionary_protocol"],
-    "C06": ["kd7_refused_call_without_space_is_harmless", "kd7_starved_flush_is_completed_by_the_next_call", "kd7_zlib_wrapper", "kd7_zlib_starved_finish", "kd10_prime", "kd10_params_tune", "kd10_set_header",
+    "C06": ["kd10_prime_room0", "kd10_prime_room7", "kd10_prime_room8", "kd7_refused_call_without_space_is_harmless", "kd7_starved_flush_is_completed_by_the_next_call", "kd7_zlib_wrapper", "kd7_zlib_starved_finish", "kd10_prime", "kd10_params_tune", "kd10_set_header",
             "kd8_quick_finish_n1", "ka1_alloc_overflow_and_null"],
     "C07": ["kd8_quick_finish_n1", "kd8_quick_finish_n3", "kd7_gzip_header_none_s1"],  # kd6_stored_one_call (580 s, 18 GB): thorough tier
     "C08": ["ki3_window_extend_checksum_order", "ki5e_check_zlib", "ki5e_check_gzip", "ki5e_length_gzip", "ki5b_hcrc", "ki5b_fixed_part", "ki5b_name",
@@ -653,7 +665,7 @@ QUICK = {
             "kd10_set_header", "kd10_set_dictionary_protocol", "ki7_inflate_terminal", "ki5e_terminal_modes"],
     "C18": ["ka3_default_allocator_fallback_is_a_matched_pair", "ka1_alloc_shim", "ka1_alloc_overflow_and_null", "ka2_deflate_copy_alloc_failure", "ka2_deflate_end_releases_once",
             "ka2_inflate_end_releases_once"],
-    "C19": ["kb1_back_fast_toofar_s1", "kb1_back_lit1_d0", "kb1_back_lit1_d4", "kb1_back_lit1_d16", "kb1_back_lit1_d29", "kb1_back_lit1_d30",
+    "C19": ["kb1_fast_back_beyond_window_w100", "kb1_back_fast_toofar_s1", "kb1_back_lit1_d0", "kb1_back_lit1_d4", "kb1_back_lit1_d16", "kb1_back_lit1_d29", "kb1_back_lit1_d30",
             "kb1_back_lit9_d5", "ki2_copy_match_back"],
     "C20": ["ki5b_fixed_part", "ki5b_extra", "ki5b_name_entry_length", "ki5b_comment_entry_length", "ki5b_name", "ki5b_comment", "ki5b_hcrc", "kd10_set_header", "kd7_flush_bytes_unit",
             "kd7_gzip_resume_extra", "kd7_gzip_resume_name", "kd7_gzip_resume_comment", "kd7_gzip_hcrc_room1_out1", "kd7_gzip_hcrc_room0_out1", "kd7_gzip_hcrc_room3_out40"],
